@@ -336,6 +336,20 @@ func (p *Packer) packWalkFn(root, src, dst string, tarW *tar.Writer, meta *Meta,
 // encounter a symbolic link chain. It returns path information about the final
 // target pointing to a regular file or directory.
 func (p *Packer) resolveExternalLink(root string, path string) (*externalSymlink, error) {
+	return p.resolveExternalLinkHops(root, path, 0)
+}
+
+// maxLinkHops bounds the length of a symlink chain that is followed when
+// dereferencing, like the operating system does (ELOOP). Without a bound a
+// cycle of links outside the source directory recursed until the stack
+// overflowed.
+const maxLinkHops = 255
+
+func (p *Packer) resolveExternalLinkHops(root string, path string, hops int) (*externalSymlink, error) {
+	if hops >= maxLinkHops {
+		return nil, fmt.Errorf("too many levels of symbolic links resolving %q", path)
+	}
+
 	// Read the symlink file to find the destination.
 	target, err := os.Readlink(path)
 	if err != nil {
@@ -359,7 +373,7 @@ func (p *Packer) resolveExternalLink(root string, path string) (*externalSymlink
 
 	// Recurse if the symlink resolves to another symlink
 	if info.Mode()&os.ModeSymlink != 0 {
-		return p.resolveExternalLink(root, absTarget)
+		return p.resolveExternalLinkHops(root, absTarget, hops+1)
 	}
 
 	return &externalSymlink{
